@@ -31,6 +31,7 @@ EXPLANATION = (
     "Under std Condvar semantics (spurious wake-ups allowed) these conditions imply no lost wake-up. "
     "Not decided: wall-clock latency."
     " Waiters are derived from the condvar wait sites; (test-and-wait under one critical section) on every path from an acquisition of the mutex to the wait the predicate chain is re-entered at its head, a head being a read of the chain's first field that dominates a read of every other field."
+    ' notify iff acked.saturating_sub(before) > 0 is one of the notify-iff-changed forms.'
 )
 ASSUMPTIONS = [
     "std::sync::Condvar::wait_timeout atomically releases the mutex and parks; notify_all wakes all parked threads",
